@@ -28,6 +28,31 @@ CFG = {
 }
 
 
+def documented_allow_none(case, cid):
+    """`allow_none` as documented (base.py): the cells' own setting; if that is None the space's; if that is None the
+    model's (False unless set) - computed from the program description, not read from modelx"""
+    cell = next(c for c in case["cells"] if c["id"] == cid)
+    for v in (cell.get("allow_none"), case["cells"][0].get("an_space"), case["cells"][0].get("an_model", False)):
+        if v is not None:
+            return bool(v)
+    return False
+
+
+def none_rule(case, impl, out, stats, hist):
+    """'returning None where it is not allowed' is a failure: no cached cells may hold a computed None unless the
+    nearest allow_none setting allows it"""
+    for x in impl.observe("values").split()[1:]:
+        node, v = x.split("=")
+        if v == "NC":
+            cid = int(node.split("[")[0])
+            stats["oracle_computed_none_held"] += 1
+            if not documented_allow_none(case, cid):
+                out.fail("%s holds a computed None although None is not allowed there (allow_none cells/space/model = "
+                         "%s/%s/%s)" % (node, next(c for c in case["cells"] if c["id"] == cid).get("allow_none"),
+                                        case["cells"][0].get("an_space"), case["cells"][0].get("an_model", False)), hist)
+                return
+
+
 def oracle(case, recs, out, stats):
     impl = ExecImpl(case["cells"], case["refs"], case["n_rn"], case["maxdepth"], log=False)
     nontrivial = False
@@ -47,9 +72,17 @@ def oracle(case, recs, out, stats):
                     c(*args)
                     if chain_failed:
                         nontrivial = True
+                    none_rule(case, impl, out, stats, hist)
                     continue
                 except FormulaError:
                     orig = mx.get_error()
+                    if type(orig).__name__ == "NoneReturnedError":
+                        stats["oracle_none_returned_errors"] += 1
+                        ch = real_chain(orig)
+                        # the failure point: the innermost element of the chain that was executing
+                        if ch and documented_allow_none(case, ch[-1][0]):
+                            out.fail("NoneReturnedError for %s although the nearest allow_none setting allows None"
+                                     % node_s(ch[-1][0], ch[-1][1]), hist)
                 except TypeError:
                     continue       # wrong arity at top level: rejected before anything runs
                 except BaseException as e:
